@@ -34,6 +34,7 @@ package gtxbuf
 
 //@ func workingState.CheckAddTx
 //@   property C19
+//@   requires w.addTx != nil
 //@   requires WInv(w)
 //@   ensures appended-only-if-it-applies: result == nil ==> applyOK(old(curOf(w)), tx) && len(w.Txs) == old(len(w.Txs)) + 1 && w.Txs[old(len(w.Txs))] == tx &&
 //@       (forall j int :: 0 <= j && j < old(len(w.Txs)) ==> w.Txs[j] == old(w.Txs)[j])
@@ -69,6 +70,7 @@ package gtxbuf
 
 //@ func workingState.Rebase
 //@   property C19
+//@   requires w.addTx != nil && w.txDeleter != nil
 //@   ensures base-replaced: w.BaseState == newBase
 //@   ensures current-state-is-base-unless-flagged: w.isUpdated || w.curState == newBase
 //@   ensures nothing-pending-fast-path: old(len(w.Txs)) == 0 ==> result.Err == nil && len(result.Invalidated) == 0 && !w.isUpdated && w.Txs == old(w.Txs)
